@@ -60,7 +60,20 @@ type c12Plan struct {
 	// header-only packet of another type, 2: a DONE package. That NewChannel must fail and leave no channel behind:
 	// a packet the server sends for the id afterwards is a packet for a channel that does not exist.
 	BadAck map[int]int `json:"bad_ack,omitempty"`
+	// Chaos: instead of the scripted clients, a few tasks call the whole public surface of two shared channels
+	// (channel 0 and one logical channel) and of the connection in seeded order - sends, receives, polls, queue /
+	// flush, Reset, SetLastPkgRx/Tx, hook registration, Close, Conn.Close, NewChannel, PacketSize. Only safety is
+	// judged: no data race, no panic, every call returns, the reader ends once the connection is closed.
+	Chaos [][]c12ChaosOp `json:"chaos,omitempty"`
 }
+
+type c12ChaosOp struct {
+	Op string `json:"op"`
+	Ch int    `json:"ch"` // 0: channel 0, 1: the logical channel
+}
+
+var c12ChaosOps = []string{"send", "send", "recv", "recv", "poll", "queue", "flush", "reset", "lastrx", "lasttx", "eedhook", "envhook",
+	"close", "connclose", "newchan", "size", "until"}
 
 type c12 struct{}
 
@@ -82,6 +95,20 @@ func (c12) Components() map[string]string {
 
 func (c12) Gen(r *Rand, idx int, tier string) interface{} {
 	p := &c12Plan{Knobs: GenKnobs(r)}
+	if r.Pct(12) {
+		nt := 2 + r.Intn(3)
+		for t := 0; t < nt; t++ {
+			var ops []c12ChaosOp
+			for k := 0; k < 2+r.Intn(5); k++ {
+				ops = append(ops, c12ChaosOp{Op: Pick(r, c12ChaosOps), Ch: r.Intn(2)})
+			}
+			p.Chaos = append(p.Chaos, ops)
+		}
+		p.QueueSize = 100
+		p.BodySize = Pick(r, []int{9, 18, 504})
+		p.Tasks = []c12Task{{}}
+		return p
+	}
 	maxN := 4
 	if tier == "thorough" && r.Pct(30) {
 		maxN = 16
@@ -162,6 +189,22 @@ func (c12) Decode(raw json.RawMessage) (interface{}, error) {
 func (c12) Shrink(plan interface{}) []interface{} {
 	p := plan.(*c12Plan)
 	var out []interface{}
+	if len(p.Chaos) > 0 {
+		for i := range p.Chaos {
+			if len(p.Chaos) > 1 {
+				q := *p
+				q.Chaos = append(append([][]c12ChaosOp{}, p.Chaos[:i]...), p.Chaos[i+1:]...)
+				out = append(out, &q)
+			}
+			for k := range p.Chaos[i] {
+				q := *p
+				q.Chaos = append([][]c12ChaosOp{}, p.Chaos...)
+				q.Chaos[i] = append(append([]c12ChaosOp{}, p.Chaos[i][:k]...), p.Chaos[i][k+1:]...)
+				out = append(out, &q)
+			}
+		}
+		return out
+	}
 	for i := range p.Tasks {
 		if len(p.Tasks) > 1 {
 			q := *p
@@ -223,6 +266,9 @@ func c12Marker(task, round, k int) int32 { return int32(task*10000 + round*100 +
 
 func (c12) Run(plan interface{}, schedSeed uint64, replay []simrt.Choice, lenient, keepLog bool) (*Verdict, *simrt.Outcome) {
 	p := plan.(*c12Plan)
+	if len(p.Chaos) > 0 {
+		return c12RunChaos(p, schedSeed, replay, lenient, keepLog)
+	}
 	v := &Verdict{}
 	cfg := p.Knobs.Config(schedSeed)
 	cfg.Replay, cfg.Lenient, cfg.KeepLog = replay, lenient, keepLog
@@ -776,4 +822,140 @@ func (c12) Run(plan interface{}, schedSeed uint64, replay []simrt.Choice, lenien
 // RequiredProbes: a batch in which one of these never fired explored nothing of that kind (exit 2, not a pass).
 func (c12) RequiredProbes() []string {
 	return []string{"concurrent-newchannel-or-close", "interleaved-responses"}
+}
+
+// c12RunChaos: see c12Plan.Chaos.
+func c12RunChaos(p *c12Plan, schedSeed uint64, replay []simrt.Choice, lenient, keepLog bool) (*Verdict, *simrt.Outcome) {
+	v := &Verdict{}
+	cfg := p.Knobs.Config(schedSeed)
+	cfg.Replay, cfg.Lenient, cfg.KeepLog = replay, lenient, keepLog
+	if cfg.MaxSteps == 0 {
+		cfg.MaxSteps = 200000
+	}
+	s := simrt.New(cfg)
+	pr := NewTDSPeer(s)
+	pr.OnHeaderOnly = func(pk peer.RecvPacket) {
+		if pk.H.Type == peer.BufSetup {
+			pr.SendPackets([][]byte{peer.MakePacket(peer.BufProtack, peer.BufstatEOM, pk.H.Channel, 0, nil)})
+		}
+	}
+	pr.OnMsg = func(m *ClientMsg) {
+		if m.Type == peer.BufClose || m.Type == peer.BufSetup {
+			return
+		}
+		if len(m.Body) == 2 && m.Body[0] == 0x71 {
+			pr.SendPackets(peer.Packetise(peer.Done(0, 0, 0), nil, peer.BufResponse, m.Channel, true))
+			return
+		}
+		// a message, an environment change (the packet size stays what it is), a counted and the final DONE
+		var body []byte
+		body = append(body, peer.EED(4711, 1, 16, "ZZZZZ", 0, 0, "chaos", "srv", "", 1)...)
+		body = append(body, peer.EnvChange(peer.EnvMember{Type: 4, New: "512", Old: "512"})...)
+		body = append(body, peer.Done(0x11, 0, 77)...)
+		body = append(body, peer.Done(0, 0, 0)...)
+		pr.SendPackets(peer.Packetise(body, peer.CutsBySize(len(body), p.BodySize), peer.BufResponse, m.Channel, true))
+	}
+	var setupErr string
+	connClosed := false
+	out := s.Run(func() {
+		conn, err := tds.NewConn(context.Background(), MkInfo(p.QueueSize, 5, false))
+		if err != nil {
+			setupErr = err.Error()
+			return
+		}
+		ch0, err := conn.NewChannel()
+		if err != nil {
+			setupErr = err.Error()
+			return
+		}
+		chL, err := conn.NewChannel()
+		if err != nil {
+			setupErr = err.Error()
+			return
+		}
+		chans := []*tds.Channel{ch0, chL}
+		var ts []*simrt.Task
+		for ti, ops := range p.Chaos {
+			ops := ops
+			ts = append(ts, simrt.Spawn(fmt.Sprintf("x%d", ti+1), func() {
+				for _, o := range ops {
+					ch := chans[o.Ch%2]
+					ctx, cancel := simrt.WithTimeout(context.Background(), time.Second)
+					switch o.Op {
+					case "send":
+						_ = ch.SendPackage(ctx, &tds.LanguagePackage{Cmd: "chaos"})
+					case "recv":
+						short, c2 := simrt.WithTimeout(context.Background(), 50*time.Millisecond)
+						_, _ = ch.NextPackage(short, true)
+						c2()
+					case "until":
+						short, c2 := simrt.WithTimeout(context.Background(), 50*time.Millisecond)
+						_, _ = ch.NextPackageUntil(short, true, nil)
+						c2()
+					case "poll":
+						_, _ = ch.NextPackage(ctx, false)
+					case "queue":
+						_ = ch.QueuePackage(ctx, &tds.LanguagePackage{Cmd: "chaos-queued"})
+					case "flush":
+						_ = ch.SendRemainingPackets(ctx)
+					case "reset":
+						ch.Reset()
+					case "lastrx":
+						ch.SetLastPkgRx(nil)
+					case "lasttx":
+						ch.SetLastPkgTx(nil)
+					case "eedhook":
+						_ = ch.RegisterEEDHooks(func(tds.EEDPackage) {})
+					case "envhook":
+						_ = ch.RegisterEnvChangeHooks(func(tds.EnvChangeType, string, string) {})
+					case "close":
+						_ = ch.Close()
+					case "connclose":
+						_ = conn.Close()
+					case "newchan":
+						if c, err := conn.NewChannel(); err == nil {
+							_ = c.Close()
+						}
+					case "size":
+						_ = conn.PacketSize() + conn.PacketBodySize()
+					}
+					cancel()
+				}
+			}))
+		}
+		simrt.Join(ts...)
+		_ = conn.Close()
+		connClosed = true
+		simrt.Sleep(time.Second)
+	})
+	StdOutcome(v, out)
+	if v.Machinery != "" {
+		return v, out
+	}
+	if setupErr != "" {
+		v.Machinery = "connection setup failed: " + setupErr
+		return v, out
+	}
+	if out.Budget {
+		return v, out
+	}
+	for _, c := range out.Crashes {
+		v.Violate("panic", "panic "+CrashSig(c), "task %s panicked: %s\n%s", c.Task, c.Value, c.Stack)
+	}
+	if out.Races > 0 {
+		v.Violate("race", "race", "the race detector reported %d data race(s) on this schedule (report in the worker's race log)", out.Races)
+	}
+	if len(out.Parked) > 0 {
+		if connClosed {
+			v.Violate("reader-not-ended", "reader goroutine still running after Conn.Close", "every task has returned and the connection is closed; still parked: %v", out.Parked)
+		} else {
+			v.Violate("deadlock", "deadlock "+ParkSig(out, Sites), "tasks blocked forever: %v", out.Parked)
+		}
+	}
+	v.Probe("api-chaos")
+	if v.Class == "" {
+		v.Nontrivial = fmt.Sprintf("chaos|%016x", out.LogHash)
+	}
+	v.Sample = map[string]interface{}{"chaos_tasks": len(p.Chaos), "steps": out.Steps}
+	return v, out
 }
